@@ -31,7 +31,9 @@ def _pool():
     with warnings.catch_warnings():
         warnings.simplefilter("ignore")
         for n in NAMES:
-            pool[n] = [Table(pd.DataFrame({"c": [1.0]}), name=n, units=["m"]) for _ in range(3)]
+            pool[n] = [Table(pd.DataFrame({"c": [1.0]}), name=n, units=["m"]),
+                       Table(pd.DataFrame({"c": [1.0]}), name=n, units=["m"]),
+                       Table(pd.DataFrame({"d": [1.0, 2.0], "e": ["x", "y"]}), name=n, units=["m", "text"])]
     return pool
 
 
@@ -195,9 +197,33 @@ def impl_run(TableBundle, NotUnique, blocks, as_df, qs, stored, n):
             ans.append({"exc": "IndexError"})
         except NotUnique:
             ans.append({"exc": "TableNameNotUniqueInBundleError"})
+        except Exception as e:  # noqa: BLE001 — any other class is reported as such and judged by the oracle
+            ans.append({"exc": type(e).__name__})
     if list(b._tables_named.keys()) != keys_before or [id(x) for x in b] != order_ids:
         ans.append("STATE-CHANGED-BY-LOOKUP")
+    elif not _iterations_independent(b, order_ids):
+        ans.append("ITERATIONS-INTERFERE")
     return ans
+
+
+def _iterations_independent(b, order_ids):
+    """every iteration yields all tables in order, also when another one over the same bundle is in flight"""
+    n = len(order_ids)
+    outer, inner = [], []
+    for x in b:
+        outer.append(id(x))
+        inner.append([id(y) for y in b])
+    if outer != order_ids or any(i != order_ids for i in inner):
+        return False
+    if [(id(x), id(y)) for x, y in zip(b, b)] != [(i, i) for i in order_ids]:
+        return False
+    if n:
+        it = iter(b)
+        first = [id(next(it))]
+        full = [id(x) for x in b]
+        if full != order_ids or first + [id(x) for x in it] != order_ids:
+            return False
+    return True
 
 
 def _int_item(b, i, seq):
@@ -232,6 +258,10 @@ def oracle(abstract, impl, qs, out, case):
         return
     if impl and impl[-1] == "STATE-CHANGED-BY-LOOKUP":
         out.fail("a lookup changed the bundle", case, impl, None, key="lookup_mutates")
+        return
+    if impl and impl[-1] == "ITERATIONS-INTERFERE":
+        out.fail("an iteration over the bundle did not yield every table in input order while another iteration "
+                 "was in progress", case, impl, None, key="iter_interfere")
         return
     order = [a["val"] for a in tabs]
     for q, a in zip(qs, impl):
